@@ -327,3 +327,246 @@ def representation_independence(seed, n):
                       'chi2': c1, 'chi2_negated': c2, 'edge': 'graph', 'finding_key': KNOWN_SIGN_KEY,
                       'input': 'vertex 1 quaternion (0.5,0.5,0.5,0.5) vs its negative; Omega = I6 with Omega[0,5] = Omega[5,0] = 0.5'})
     return evals, fails
+
+
+# ------------------------------------------------------------------------------------------------
+# C04: linear graphs vs an independent dense weighted least-squares solution
+def linear_optimum(seed, n):
+    rng = random.Random(seed)
+    fails, evals = [], 0
+    for i in range(n):
+        kind = rng.choice(['R2', 'R3'])
+        d = ce.DIM[kind]
+        P = PoseR2 if kind == 'R2' else PoseR3
+        nv = rng.randint(2, 30 if rng.random() < 0.2 else 9)
+        far = rng.random() < 0.5
+        sc = 1e6 if far else 5.0
+        truth = [np.array([rng.gauss(0, 3) for _ in range(d)]) for _ in range(nv)]
+        verts = [Vertex(rng.choice([-1, 1]) * (k + 1) * 13, P([rng.gauss(0, sc) for _ in range(d)])) for k in range(nv)]
+        ids = [v.id for v in verts]
+        nfix = rng.randint(1, max(1, nv // 3))
+        fixed_pos = rng.sample(range(nv), nfix)
+        for k in fixed_pos:
+            verts[k].fixed = True
+        # connected: random spanning tree + loops + multi-edges (both directions) + landmark edges with offsets
+        pairs = [(rng.randrange(k), k) for k in range(1, nv)]
+        for _ in range(rng.randint(0, nv)):
+            a, b = rng.sample(range(nv), 2) if nv > 1 else (0, 0)
+            if a != b:
+                pairs.append((a, b))
+        if pairs and rng.random() < 0.6:
+            a, b = pairs[rng.randrange(len(pairs))]
+            pairs.append((b, a))          # anti-parallel multi-edge
+        es = []
+        for (a, b) in pairs:
+            Om = oe.rand_spd(rng, d, cond=10 ** rng.uniform(0, 4))
+            noise = np.array([rng.gauss(0, 0.3) for _ in range(d)])
+            if rng.random() < 0.7:
+                es.append(EdgeOdometry([ids[a], ids[b]], Om, P(list(truth[b] - truth[a] + noise))))
+            else:
+                off = np.array([rng.gauss(0, 1) for _ in range(d)])
+                es.append(EdgeLandmark([ids[a], ids[b]], Om, P(list(truth[b] - truth[a] - off + noise)), offset=P(list(off)), offset_id=0))
+        order = list(range(nv)); rng.shuffle(order)
+        vlist = [verts[k] for k in order]
+        rng.shuffle(es)
+        g = Graph(es, vlist)
+        # independent solution: minimise sum (A x - y)^T Om (A x - y) over the free coordinates
+        pos = {v.id: k for k, v in enumerate(vlist)}
+        N = d * nv
+        rows, ys, Ws = [], [], []
+        for e in es:
+            a, b = pos[e.vertex_ids[0]], pos[e.vertex_ids[1]]
+            A = np.zeros((d, N)); A[:, b * d:(b + 1) * d] = np.eye(d); A[:, a * d:(a + 1) * d] = -np.eye(d)
+            if isinstance(e, EdgeLandmark):
+                y = np.asarray(e.estimate) + np.asarray(e.offset)
+            else:
+                y = np.asarray(e.estimate)
+            L = np.linalg.cholesky(np.asarray(e.information))
+            rows.append(L.T @ A); ys.append(L.T @ y)
+        A = np.vstack(rows); y = np.concatenate(ys)
+        x0 = np.concatenate([np.asarray(v.pose) for v in vlist])
+        free = np.concatenate([np.arange(k * d, (k + 1) * d) for k, v in enumerate(vlist) if not v.fixed]) if any(not v.fixed for v in vlist) else np.array([], dtype=int)
+        fixed_idx = np.array([j for j in range(N) if j not in set(free.tolist())], dtype=int)
+        xs = x0.copy()
+        if len(free):
+            rhs = y - A[:, fixed_idx] @ x0[fixed_idx]
+            sol, *_ = np.linalg.lstsq(A[:, free], rhs, rcond=None)
+            xs[free] = sol
+        chi_opt = float(np.sum((A @ xs - y) ** 2))
+        try:
+            res = g.optimize(tol=1e-10, max_iter=10, fix_first_pose=False, verbose=False)
+        except Exception as ex:  # noqa
+            fails.append({'law': 'optimize raised %r' % (ex,), 'seed': seed, 'case': i, 'edge': 'graph'})
+            continue
+        evals += 1
+        got = np.concatenate([np.asarray(v.pose) for v in vlist])
+        scale = 1.0 + np.abs(xs).max() + (sc if far else 0.0) * 1e-3
+        if not np.allclose(got, xs, rtol=0, atol=1e-6 * scale):
+            fails.append({'law': 'optimize() does not return the weighted least-squares optimum of a linear graph', 'seed': seed, 'case': i,
+                          'kind': kind, 'n_vertices': nv, 'n_edges': len(es), 'far_start': far, 'max_abs_diff': float(np.abs(got - xs).max()), 'edge': 'graph'})
+            continue
+        if not abs(res.final_chi2 - chi_opt) <= 1e-6 * (1 + chi_opt) + 1e-9 * scale ** 2 * (1e-6 if far else 1):
+            fails.append({'law': 'reported final_chi2 %r differs from the chi2 of the optimum %r' % (res.final_chi2, chi_opt), 'seed': seed, 'case': i, 'edge': 'graph'})
+    return evals, fails
+
+
+# ------------------------------------------------------------------------------------------------
+# C15: purity of queries under random interleavings, bitwise snapshots of every reachable array
+def snapshot(g):
+    out = []
+    for v in g._vertices:
+        out.append(('v', v.id, bool(v.fixed), type(v.pose).__name__, np.array(v.pose).tobytes()))
+    for e in g._edges:
+        est = e.estimate
+        out.append(('e', type(e).__name__, tuple(e.vertex_ids), None if est is None else np.array(est).tobytes(),
+                    np.array(e.information).tobytes(),
+                    np.array(e.offset).tobytes() if getattr(e, 'offset', None) is not None else None, getattr(e, 'offset_id', None),
+                    tuple(id(v) for v in (e.vertices or []))))
+    return out
+
+
+def purity(seed, n):
+    import tempfile
+    import os
+    rng = random.Random(seed)
+    fails, evals = [], 0
+    for i in range(n):
+        kind = rng.choice(['SE2', 'SE3', 'R2', 'R3'])
+        share = rng.random() < 0.4
+        g, _ = oe.build_graph(rng, kind, nv=rng.randint(3, 5), landmarks=True, noise=0.05, pert=0.05, info_cross=True)
+        vs, es = g._vertices, list(g._edges)
+        if kind == 'SE3':      # quaternions with negative scalar part, in vertices and measurements
+            for v in vs:
+                if isinstance(v.pose, PoseSE3) and rng.random() < 0.5:
+                    v.pose = PoseSE3(v.pose[:3], -np.asarray(v.pose[3:]))
+            for e in es:
+                if isinstance(e.estimate, PoseSE3) and rng.random() < 0.5:
+                    e.estimate = PoseSE3(e.estimate[:3], -np.asarray(e.estimate[3:]))
+        if share and len(vs) >= 2:
+            # objects shared between places (legal): a vertex initialised with the measurement object of an edge,
+            # two vertices initialised from one array
+            odo = [e for e in es if isinstance(e, EdgeOdometry)]
+            if odo and type(odo[0].estimate) is type(vs[1].pose):
+                vs[1].pose = odo[0].estimate
+            if kind in ('R2', 'R3'):
+                arr = np.array(vs[0].pose, dtype=np.float64)
+                vs[0].pose = type(vs[0].pose)(arr)
+                vs[-1].pose = type(vs[-1].pose)(arr) if type(vs[-1].pose) is type(vs[0].pose) else vs[-1].pose
+        # a custom edge with numerical Jacobians
+        if rng.random() < 0.6:
+            from corr_graph import ScriptedEdge
+
+            class NumEdge(ScriptedEdge):
+                def __init__(self, vertex_ids, information):
+                    BaseEdgeInit(self, vertex_ids, information)
+
+                def calc_error(self):
+                    a, b = np.asarray(self.vertices[0].pose), np.asarray(self.vertices[1].pose)
+                    return np.array([float(np.sum((a[:2] - b[:2]) ** 2)) - 1.0])
+
+                def calc_jacobians(self):
+                    from graphslam.edge.base_edge import BaseEdge
+                    return BaseEdge.calc_jacobians(self)
+            a, b = rng.sample(range(len(vs)), 2)
+            ne = NumEdge([vs[a].id, vs[b].id], np.eye(1))
+            es.append(ne)
+        for e in es:
+            e.vertices = None
+        g = Graph(es, vs)
+        g._vertices[0].fixed = True
+        snap0 = snapshot(g)
+        last = {}
+        qs = ['chi2', 'edge_err', 'edge_chi2', 'edge_jac', 'edge_cgh', 'equals', 'to_g2o', 'pose_ops', 'copy']
+        ok = True
+        for step in range(rng.randint(5, 50)):
+            q = rng.choice(qs)
+            try:
+                if q == 'chi2':
+                    val = float(g.calc_chi2())
+                elif q == 'to_g2o':
+                    p = os.path.join(tempfile.gettempdir(), 'verif_c15_%d.g2o' % os.getpid())
+                    try:
+                        g.to_g2o(p)
+                        val = open(p).read()
+                    except (NotImplementedError, ValueError) as ex:
+                        val = type(ex).__name__
+                    finally:
+                        if os.path.exists(p):
+                            os.remove(p)
+                elif q == 'equals':
+                    val = bool(g.equals(g)) and all(bool(e.equals(e)) for e in g._edges) and all(bool(v.equals(v)) for v in g._vertices)
+                elif q == 'pose_ops':
+                    v = rng.choice(g._vertices)
+                    w = rng.choice(g._vertices)
+                    val = [np.array(v.pose.copy()).tobytes(), np.array(v.pose.inverse).tobytes(), np.array(v.pose.to_array()).tobytes(), np.array(v.pose.to_compact()).tobytes()]
+                    if type(v.pose) is type(w.pose):
+                        val += [np.array(v.pose + w.pose).tobytes(), np.array(v.pose - w.pose).tobytes()]
+                        val += [np.asarray(v.pose.jacobian_self_oplus_other_wrt_self(w.pose)).tobytes()]
+                    q = 'pose_ops_%d_%d' % (g._vertices.index(v), g._vertices.index(w))
+                elif q == 'copy':
+                    v = rng.choice(g._vertices)
+                    c = v.pose.copy()
+                    c[0] = c[0] + 1.0     # copies are independent
+                    val = np.array(v.pose).tobytes()
+                    q = 'copy_%d' % g._vertices.index(v)
+                else:
+                    k = rng.randrange(len(g._edges))
+                    e = g._edges[k]
+                    if q == 'edge_err':
+                        val = np.asarray(e.calc_error()).tobytes()
+                    elif q == 'edge_chi2':
+                        val = float(e.calc_chi2())
+                    elif q == 'edge_jac':
+                        val = [np.asarray(J).tobytes() for J in e.calc_jacobians()]
+                    else:
+                        c, gr, he = e.calc_chi2_gradient_hessian()
+                        val = [float(c)] + [np.asarray(x[1]).tobytes() for x in gr] + [np.asarray(x[1]).tobytes() for x in he]
+                    q = '%s_%d' % (q, k)
+            except Exception as ex:  # noqa
+                fails.append({'law': 'query %s raised %r' % (q, ex), 'seed': seed, 'case': i, 'edge': 'graph'})
+                ok = False
+                break
+            evals += 1
+            if snapshot(g) != snap0:
+                fails.append({'law': 'query %s changed the numeric state of the graph' % q, 'seed': seed, 'case': i, 'kind': kind, 'step': step,
+                              'shared_objects': share, 'edge': 'graph'})
+                ok = False
+                break
+            if q in last and last[q] != val:
+                fails.append({'law': 'repeated query %s returned a different value' % q, 'seed': seed, 'case': i, 'kind': kind, 'step': step, 'edge': 'graph'})
+                ok = False
+                break
+            last[q] = val
+        if not ok:
+            continue
+        # optimize(): only vertex poses (and the first vertex's fixed flag) may change
+        ffp = rng.random() < 0.5
+        edge_part0 = [s for s in snapshot(g) if s[0] == 'e']
+        fixed0 = [s for s in snapshot(g) if s[0] == 'v' and s[2]]
+        flags0 = [bool(v.fixed) for v in g._vertices]
+        try:
+            g.optimize(tol=1e-9, max_iter=rng.randint(1, 4), fix_first_pose=ffp, verbose=False)
+        except Exception as ex:  # noqa
+            continue
+        evals += 1
+        if [s for s in snapshot(g) if s[0] == 'e'] != edge_part0:
+            fails.append({'law': 'optimize() changed a measurement, information matrix, offset or edge binding', 'seed': seed, 'case': i, 'kind': kind,
+                          'shared_objects': share, 'edge': 'graph'})
+            continue
+        want = list(flags0)
+        if ffp:
+            want[0] = True
+        if [bool(v.fixed) for v in g._vertices] != want:
+            fails.append({'law': 'optimize() changed fixed flags other than the first vertex', 'seed': seed, 'case': i, 'edge': 'graph'})
+            continue
+        now = {(s[1]): s for s in snapshot(g) if s[0] == 'v'}
+        for s in fixed0:
+            if now[s[1]][4] != s[4]:
+                fails.append({'law': 'optimize() moved a fixed vertex', 'seed': seed, 'case': i, 'kind': kind, 'shared_objects': share, 'edge': 'graph'})
+                break
+    return evals, fails
+
+
+def BaseEdgeInit(self, vertex_ids, information):
+    from graphslam.edge.base_edge import BaseEdge
+    BaseEdge.__init__(self, vertex_ids, information, 1.0)
